@@ -19,8 +19,8 @@ def plan(tier, seed):
     jobs, pairs = [], []
     for spec, variant, nq, nt in TABLE:
         for n in ([nq] if tier == "quick" else sorted({nq, nt})):
-            if spec == "mtvrp" and n > nq and "L" in (variant or "").replace("TW", "") and "TW" in (variant or ""):
-                continue  # distance limit + time windows at n=3: the reachability queries do not finish within the per-query timeout (not claimed)
+            if spec == "mtvrp" and n > nq and "TW" in (variant or ""):
+                continue  # time-window variants at n=3: the reachability queries run close to / beyond the per-query timeout (not claimed)
             jobs.append({"id": f"C05:{spec}[{variant}] n={n}", "module": "vf.episodes", "func": "reach_job", "params": dict(spec=spec, variant=variant, n=n)})
         pairs.append((spec, variant, nq + 2))
     # exact-fill clause in bit-precise float32 (capacities of the library's own table: 20 = CVRP10, 30 = CVRP20, ...)
